@@ -1,4 +1,5 @@
 //! inject: src/dap/yadap/session/breakpoint.rs
+//! t7: src/dap/yadap/session/mod.rs, src/dap/yadap/session/breakpoint.rs, src/dap/yadap/session/control.rs, src/dap/yadap/session/other.rs, src/dap/yadap/session/frame.rs
 //
 // C13 — hitCondition semantics: "N", "=N", "==N" stop on exactly the N-th hit, ">N", ">=N", "<N",
 // "<=N" as written, anything else is Invalid (which the caller reports and never silently drops).
@@ -125,12 +126,12 @@ fn hit_condition<const N: usize>() {
 //@ tier: quick
 //@ encodes: HitCondition::{parse, matches}
 //@ symbolic: 2 bytes of text over [0-9<>= ], the hit count (u64)
-//@ bounds: text length 2 (instance); unwind 8 (trim / strip_prefix / parse loops over <= 2 bytes)
+//@ bounds: text length 2 (instance); unwind 4 (trim / strip_prefix / parse loops over <= 2 bytes; unwinding assertions on)
 //@ oracle: independent byte-level reader of the documented forms N, =N, ==N, >N, >=N, <N, <=N (blanks allowed around operator and number); matches() compares the running hit count with N as written
 //@ outside: numbers beyond 5 digits (u64 overflow of the parser), non-ASCII text, what the session does with Invalid
 //@ timeout: 900
 #[kani::proof]
-#[kani::unwind(8)]
+#[kani::unwind(4)]
 fn c13_hit_condition_2() {
     hit_condition::<2>();
 }
@@ -141,11 +142,11 @@ fn c13_hit_condition_2() {
 //@ tier: thorough
 //@ encodes: HitCondition::{parse, matches}
 //@ symbolic: 3 bytes of text over [0-9<>= ], the hit count (u64)
-//@ bounds: text length 3 (instance); unwind 9
+//@ bounds: text length 3 (instance); unwind 5
 //@ oracle: as c13_hit_condition_2
 //@ timeout: 1200
 #[kani::proof]
-#[kani::unwind(9)]
+#[kani::unwind(5)]
 fn c13_hit_condition_3() {
     hit_condition::<3>();
 }
@@ -156,11 +157,11 @@ fn c13_hit_condition_3() {
 //@ tier: thorough
 //@ encodes: HitCondition::{parse, matches}
 //@ symbolic: 4 bytes of text over [0-9<>= ], the hit count (u64)
-//@ bounds: text length 4 (instance); unwind 10
+//@ bounds: text length 4 (instance); unwind 6
 //@ oracle: as c13_hit_condition_2
 //@ timeout: 2400
 #[kani::proof]
-#[kani::unwind(10)]
+#[kani::unwind(6)]
 fn c13_hit_condition_4() {
     hit_condition::<4>();
 }
